@@ -160,6 +160,40 @@ let cres_eq a b = match a, b with
 let known_flag rounded =
   if rounded then Some "int_fraction_rounded" else None
 
+(* Cross-check of extraction: with ORACLE_DUMP=<file> every value the extracted model computes for a
+   case is appended to that file as natural numbers, before any comparison with the implementation;
+   bin/coqreplay_c25.py recomputes the same numbers inside Coq with vm_compute.
+   Encoding: Z as (sign, magnitude); bytes as (length, bytes...); see enc_* (mirrored in the script). *)
+let dump_chan = match Sys.getenv_opt "ORACLE_DUMP" with
+  | Some p when p <> "" -> Some (open_out_gen [Open_append; Open_creat] 0o644 p)
+  | _ -> None
+let enc_z (x : z) : string list = match x with
+  | Z0 -> ["0"; "0"] | Zpos p -> ["0"; dec_of_pos p] | Zneg p -> ["1"; dec_of_pos p]
+let enc_b b = [if b then "1" else "0"]
+let enc_bytes (b : n list) : string list =
+  string_of_int (List.length b) :: List.map (fun c -> string_of_int (int_of_n c)) b
+let rec enc_cval (v : cval) : string list = match v with
+  | VBool b -> "0" :: enc_b b
+  | VStr s -> "1" :: enc_bytes s
+  | VInt x -> "2" :: enc_z x
+  | VUint x -> "3" :: enc_z x
+  | VDouble FNaN -> ["4"; "0"]
+  | VDouble (FInf n) -> "4" :: "1" :: enc_b n
+  | VDouble (FFin (m, e)) -> "4" :: "2" :: (enc_z m @ enc_z e)
+  | VList l -> "5" :: string_of_int (List.length l) :: List.concat_map enc_cval l
+  | VMap l -> "6" :: string_of_int (List.length l) :: List.concat_map (fun (k, x) -> enc_bytes k @ enc_cval x) l
+  | VOpaque -> ["7"] | VAny -> ["8"]
+let enc_cres r = match r with COk v -> "0" :: enc_cval v | CErr -> ["1"] | CPanic -> ["2"] | COut -> ["3"]
+let enc_errc e = match e with ENotFound -> 0 | ECompile -> 1 | EType -> 2 | EMissing -> 3 | ERuntime -> 4
+let enc_tres r = match r with
+  | TMet -> ["0"] | TNotMet -> ["1"] | TErr e -> [string_of_int (2 + enc_errc e)] | TPanic -> ["7"] | TOut -> ["8"]
+let enc_eres r = match r with
+  | EvOk (met, missing) -> "0" :: (enc_b met @ (string_of_int (List.length missing) :: List.concat_map enc_bytes missing))
+  | EvErr e -> ["1"; string_of_int (enc_errc e)] | EvPanic -> ["2"] | EvOut -> ["3"]
+let dump id (nums : string list) = match dump_chan with
+  | Some ch -> output_string ch (id ^ " " ^ String.concat " " nums ^ "\n")
+  | None -> ()
+
 let f _id vs =
   match vs with
   | [I "1"; tname; ecp; cname; ps; ex; req; stored; extv; it; ie] ->
@@ -167,9 +201,13 @@ let f _id vs =
     let c = { c_name = as_cbytes cname; c_params = params_of ps; c_expr = expr_of ex } in
     let ec = if as_bool ecp then Some c else None in
     let tn = as_cbytes tname and rq = ctx_of req and st = ctx_of stored in
-    let model_t = tres_str (evaluate_tuple_condition (convert ext) tn st ec rq) in
-    let spec_t = tres_str (evaluate_tuple_condition (spec_convert ext) tn st ec rq) in
-    let model_e = eres_str (evaluate (convert ext) c rq st) in
+    let mt = evaluate_tuple_condition (convert ext) tn st ec rq in
+    let spt = evaluate_tuple_condition (spec_convert ext) tn st ec rq in
+    let me = evaluate (convert ext) c rq st in
+    dump _id ("1" :: (enc_tres mt @ enc_tres spt @ enc_eres me @ enc_b (eval_flag num_rounded c rq st)));
+    let model_t = tres_str mt in
+    let spec_t = tres_str spt in
+    let model_e = eres_str me in
     let impl_t = impl_tres it and impl_e = impl_eres ie in
     if model_t = "OUT" then "DIFF model: input outside the modelled range" else
     let same = model_t = impl_t && (impl_e = "none" || model_e = impl_e) in
@@ -190,6 +228,7 @@ let f _id vs =
     let ext = ext_of extv in
     let ty = ptype_of t and jv = as_interface (jval_of v) in
     let model = convert ext ty jv and spec = spec_convert ext ty jv in
+    dump _id ("2" :: (enc_cres model @ enc_cres spec @ enc_b (conv_flag num_rounded ty jv)));
     let impl = match as_list obs with
       | [I "0"; x] -> COk (obs_cval x) | [I "1"] -> CErr | _ -> CPanic in
     if model = COut then "DIFF model: input outside the modelled range" else
